@@ -175,6 +175,7 @@ def searcher_fileExists(it, comp, args, kwargs, line):
     name = args[0]
     key = pair_key(name, comp)
     gcount(ctx, 'asked_n', key)
+    gcount(ctx, 'asked_cnt', kenc(name))
     exp = ctx.ghost.get('opt_rebuild')
     if exp is not None:
         ctx.oblige('compiler.compile.searcher_gets_rebuild', lift(kwargs.get('rebuild')) == lift(exp), line, 'model',
@@ -187,6 +188,7 @@ def searcher_fileExists(it, comp, args, kwargs, line):
     if d == 1:
         raise_pkg(it, 'PySmiFileNotFoundError', line)
     if d == 2:
+        gset(ctx, 'fresh_seen', kenc(name), lift(True))
         raise_pkg(it, 'PySmiFileNotModifiedError', line)
     raise_pkg(it, 'PySmiError', line)
 
@@ -244,8 +246,8 @@ GHOST_BY_METHOD = {
     'genCode': ['gen_n', 'gen_by_name', 'gen_info', 'h_alias', 'h_multi', 'h_trees'],
     '_symbolgen.genCode': ['h_alias', 'h_multi', 'h_trees'],
     '_codegen.genCode': ['gen_n', 'gen_by_name', 'gen_info'],
-    'fileExists': ['asked_n', 'asked_res'],
-    'searcher.fileExists': ['asked_n', 'asked_res'],
+    'fileExists': ['asked_n', 'asked_res', 'asked_cnt', 'fresh_seen'],
+    'searcher.fileExists': ['asked_n', 'asked_res', 'asked_cnt', 'fresh_seen'],
     'putData': ['puts_n', 'puts_total', 'put_ok', 'put_failed'],
     '_writer.putData': ['puts_n', 'puts_total', 'put_ok', 'put_failed'],
 }
@@ -274,7 +276,7 @@ def sp_modname(it, args, kwargs):
 
 def init_ghost(it, env, options=None):
     ctx = it.ctx
-    for g in ('fetch_n', 'fetch_res', 'asked_n', 'asked_res', 'gen_n', 'gen_by_name', 'gen_info', 'borrow_n',
+    for g in ('fetch_n', 'fetch_res', 'asked_n', 'asked_res', 'asked_cnt', 'fresh_seen', 'gen_n', 'gen_by_name', 'gen_info', 'borrow_n',
               'borrow_by_name', 'borrow_res', 'puts_n', 'put_ok', 'put_failed'):
         ctx.ghost[g] = VDict(arr=pv.EMPTY_ARR)
     ctx.ghost['puts_total'] = 0
